@@ -69,7 +69,7 @@ def classes(tier: str):
 
 
 def n_runs(tier: str) -> int:
-    return 160_000 if tier == "quick" else 4_000_000
+    return 160_000 if tier == "quick" else 2_000_000
 
 
 # ---------------------------------------------------------------------------
